@@ -2,15 +2,16 @@
 import cpu_props
 
 ID = 'C06'
-LEAN_MODULES = ['Py65.Props.C06', 'Py65.Props.C06h']
-NAMESPACES = ['Py65.Props.C06', 'Py65.Props.C06h']
+LEAN_MODULES = ['Py65.Props.C06', 'Py65.Props.C06h', 'Py65.Props.C06r']
+NAMESPACES = ['Py65.Props.C06', 'Py65.Props.C06h', 'Py65.Props.C06r']
 # library helpers (CPython behaviour modelled in lean/Py65/Model/*Rt*.lean ...) that the generated code of these
 # modules calls, derived by scanning the Lean sources (harness/rtscan.py); validated against CPython on every run
 import rtcheck  # noqa: E402
 RT_HELPERS = rtcheck.helpers_for(LEAN_MODULES)
 EXPECTED_THEOREMS = ['Py65.Props.C06.rts_after_jsr', 'Py65.Props.C06.rti_after_interrupt', 'Py65.Props.C06.rti_after_brk',
                      'Py65.Props.C06h.balanced_restores', 'Py65.Props.C06h.frame_resumes',
-                     'Py65.Props.C06h.frame_resumes_anywhere', 'Py65.Props.C06h.nest_resumes', 'Py65.Props.C06h.frame_core', 'Py65.Props.C06h.plain_step']
+                     'Py65.Props.C06h.frame_resumes_anywhere', 'Py65.Props.C06h.nest_resumes', 'Py65.Props.C06h.frame_core', 'Py65.Props.C06h.plain_step',
+                     'Py65.Props.C06r.reset_spec_65c02', 'Py65.Props.C06r.reset_spec_65c02_cfg']
 TRUSTED = ['Spec.Cpu / Spec.Cycles (hand-written programming model and documented cycle table, the oracle)', 'translator harness/py2lean.py, validated on every run by exact-state comparison with the real device', 'Py.land/lor/lxor definitions (characterised by theorems, differentially tested)']
 ASSUMPTIONS = ['pairing theorems are stated on the specification (RTI/RTS after IRQ/NMI/BRK/JSR with an arbitrary frame-respecting computation in between, every SP incl. wrap); they transfer to the devices through the entry theorems here and the instruction theorems of C01-C03', 'C06h (nesting to ANY depth, on the GENERATED devices, lists of step()/irq()/nmi() calls): Balanced histories are defined inductively (empty; a block of calls ASSUMED to have a neutral net effect on SP and on the protected cells P - Quiet, the only assumption about the inner code -; entry . balanced body respecting the new frame cells . matching exit . balanced rest, where the new frame cells do not collide with P, i.e. the stack has not wrapped into an enclosing frame); balanced_restores: SP and P are restored by a balanced history; frame_resumes / frame_resumes_anywhere / nest_resumes: after entry . balanced body . exit execution resumes after the JSR (pc+3), two bytes after BRK, at the interrupted PC, with the caller SP and (BRK/irq/nmi) the interrupted status up to bits 4/5 - every SP incl. wrap, both widths, three devices; entries: step at $20 / $00, taken irq(), nmi(); exits: step at $60 / $40; JSR covered also when its pushes hit its own operand bytes (Hist.jsr_step), hypotheses: initial state well-formed (6502/65Org16 not waiting), nothing along the run', 'reading of "irq() does nothing while I is set": nothing but ending a WAI on the 65C02']
 LEVEL = 'proof'
